@@ -460,6 +460,8 @@ private:
         _allocated_bytes = total_allocated_size_in_bytes(dimensions);
         if (_allocated_bytes == 0)
         {
+            // no storage is needed, but the image still has the requested (zero-area) dimensions
+            _view = view_t(dimensions, typename view_t::locator());
             return;
         }
 
@@ -481,6 +483,8 @@ private:
         _allocated_bytes = total_allocated_size_in_bytes( dimensions );
         if (_allocated_bytes == 0)
         {
+            // no storage is needed, but the image still has the requested (zero-area) dimensions
+            _view = view_t(dimensions, typename view_t::locator());
             return;
         }
 
